@@ -14,9 +14,9 @@ P = {
         "name": "routes", "pkg": "./internal/rules", "test": "TestVerifC03",
         "overlay": {"internal/rules/zz_verif_c03_test.go": "c03/c03_test.go"},
         "eval_module": "Run.Eval_C03",
-        # check fx2 fx3 fx5 fx6 fx7: the model with (true) / without the repairs of C03-F2 (88da16a), F5 (16cf34b),
-        # F3 (20f92b3), F6 (72ba5d4), F7 (a779db8) - all five are in /repo now
-        "check_term": "check true true true true true",
+        # check fx1 .. fx7: the model with (true) / without (false) the repair of C03-Fn.  In /repo: F2 (88da16a),
+        # F3 (20f92b3), F5 (16cf34b), F6 (72ba5d4), F7 (a779db8); candidates not applied: fixes/C03-F1.diff, C03-F4.diff
+        "check_term": "check false true true false true true true",
         "n_quick": 1200, "n_thorough": 30000, "shard": 100,
         "findings": {1: "C03-F1", 4: "C03-F4", 8: "C03-F8"},
     }],
